@@ -62,7 +62,7 @@ print("""/*@unit
 name: equiv.fnv.prime_lemma
 define: U_FNV_LEMMA
 src: builtin_hashes.c
-backend: z3,sat
+backend: sat,z3
 tier: P
 timeout: 120
 funcs: spifhash_fnv
